@@ -43,3 +43,10 @@ claim("C07", "other", "def-use provenance of include paths, unordered-flow sinks
       "parameter set, keyword set) the expansion is reachable only when arity and keyword set match; (5) merge/dedupe/lookup of the include table.",
       "Not decided: numeric equality of bound parameter values (C04's runtime part). Trusted: library model, FileStream opens the path it is given.",
       "DESIGN.md 5/C07")
+
+claim("C10", "other", "automata equivalence for the syntax stage (as C14) + pipeline def-use/typestate lint, all-paths-raise, message-argument provenance and context-accessor typing on the error listener",
+      "Decides: (1) the recognisers accept exactly L(blackbird.g4), start requires EOF, the lexer is total; (2) every parse feeds the caller's unmodified text through lexer->token stream->parser, installs "
+      "BlackbirdErrorListener after removing the defaults, calls start() once and changes no other parser setting; (3) syntaxError raises BlackbirdSyntaxError on every path and the class cannot be absorbed "
+      "by the runtime; (4) every message carries the unmodified line and column+1; (5) no __dict__ lookups on slotted objects, every accessor used on a typed context exists, names are definitely assigned.",
+      "Not decided: 'never earlier than the first offending token' (viable-prefix property of the trusted ALL(*) runtime); nullness of accessor results on incomplete trees beyond accessor existence.",
+      "DESIGN.md 5/C10")
